@@ -41,7 +41,9 @@ RULE = (
     "operation histories of length 1..6 (quick) / 1..8 (thorough) over {setattr, delattr, augmented assignment} x {every "
     "field (new value, the very object it holds, an equal object), unknown public/private name, the hash-cache name, the five "
     "BaseException bookkeeping names, __dict__/__class__} + {hash, copy, "
-    "deepcopy, pickle protocols 0..5, evolve (valid and unknown changes)} + for exception roots {raise, raise from, implicit "
+    "deepcopy, pickle protocols 0..5, evolve (valid and unknown changes); every returned object is compared field by field and, "
+    "when hashable through a generated __hash__, against a freshly built twin (hash equality + dict lookup), with histories "
+    "that hash the original first} + for exception roots {raise, raise from, implicit "
     "chaining, with_traceback, add_note}; after every operation the full state (vars(), every slot along the MRO, "
     "args/cause/context/suppress/traceback/notes) and the exception kind are compared. Non-trivial = at least one "
     "set/del/aug operation on an instance that was constructed; distinct = distinct (hierarchy, call, history)."
@@ -120,6 +122,28 @@ def make_case(hspec, ctor, ops, stream="valid"):
 
 
 # ------------------------------------------------------------------------------------------ generation
+def _repair_order(h):
+    """after fields were made init=True: no mandatory positional parameter after a defaulted one"""
+    for i, cs in enumerate(h["classes"]):
+        if cs["kind"] != "attrs" or cs.get("kw_only"):
+            continue
+        exp = ib.expected_fields({"classes": h["classes"][: i + 1]})
+        lookup = {}
+        for c2 in h["classes"][: i + 1]:
+            if c2["kind"] == "attrs":
+                for f in c2.get("fields", []):
+                    lookup[f["name"]] = f
+        had_default = False
+        for e in exp:
+            f = lookup[e["name"]]
+            if not f.get("init", True) or e["kw_only"] or f.get("kw_only"):
+                continue
+            if f["default"] != "none":
+                had_default = True
+            elif had_default:
+                f["kw_only"] = True
+
+
 def _decorate_hspec(rng, h, stream):
     """add tail / mixins / state-method options to a chain from initbuild"""
     h = copy.deepcopy(h)
@@ -144,6 +168,32 @@ def _decorate_hspec(rng, h, stream):
         if (cs["kind"] == "attrs" and cs.get("frozen") is True and cs.get("api") in ("attr.s", "these", "make_class")
                 and not cs.get("auto_detect") and rng.random() < 0.06):
             cs[rng.choice(["user_set", "user_del"])] = True
+    # the plain-storage family: every field init=True without converter/validator, no init hooks -- the shape
+    # for which "the initializer only stores its arguments", often hash-caching
+    if rng.random() < 0.2:
+        for cs in h["classes"]:
+            cs["pre"], cs["post"] = "none", False
+            for f in cs.get("fields", []):
+                f["converter"], f["validators"], f["init"] = None, 0, True
+        # two different fields whose init aliases coincide (_p / p, explicit al_p) cannot both be parameters:
+        # drop the later one (a re-declaration of the same name further down is fine)
+        owner_of = {}
+        for cs in h["classes"]:
+            keep = []
+            for f in cs.get("fields", []):
+                al = f.get("alias") or ib.default_alias(f["name"])
+                if owner_of.setdefault(al, f["name"]) == f["name"]:
+                    keep.append(f)
+            if "fields" in cs:
+                cs["fields"] = keep
+        leaf_cs = h["classes"][-1]
+        if (leaf_cs["kind"] == "attrs" and not leaf_cs.get("cache_hash") and not h["classes"][0].get("exc_base")
+                and rng.random() < 0.6):
+            leaf_cs["cache_hash"] = True
+            leaf_cs["unsafe_hash"] = True
+            if rng.random() < 0.7:
+                leaf_cs["slots"] = False
+        _repair_order(h)
     # decorator-object histories: the decorator of a class was first applied to 0-2 other classes
     for cs in h["classes"]:
         if cs["kind"] == "attrs" and cs.get("api") != "make_class" and rng.random() < 0.4:
@@ -288,7 +338,15 @@ def _op_pool(case, rng):
 def gen_ops(case, rng, maxlen):
     pool = _op_pool(case, rng)
     n = rng.randint(1, maxlen)
-    return [copy.deepcopy(rng.choice(pool)) for _ in range(n)]
+    ops = [copy.deepcopy(rng.choice(pool)) for _ in range(n)]
+    if case.get("hashable") and case.get("leafFrozen", True) and rng.random() < 0.35:
+        # history: the ORIGINAL is hashed first (fills a hash cache), then a result object is produced and
+        # compared with a freshly built twin
+        res_ops = [op for op in pool if _opname(op) in ("evolve", "copy", "deepcopy", "pickle")]
+        res_ops += [op for op in pool if _opname(op) == "evolve" and op["evolve"]["changes"]] * 3
+        if res_ops:
+            ops = ["hash"] + ops[: max(0, maxlen - 2)] + [copy.deepcopy(rng.choice(res_ops))]
+    return ops
 
 
 def gen_cases(tier, rng):
@@ -416,15 +474,39 @@ def _plain_value(inst, name, v):
     return v
 
 
+def _twin(res, names):
+    """an instance of the same class built from scratch with the field values of `res` and an empty hash cache"""
+    cls = type(res)
+    twin = cls.__new__(cls)
+    for n in names:
+        try:
+            object.__setattr__(twin, n, getattr(res, n))
+        except AttributeError:
+            pass
+    try:
+        getattr(res, CACHE)
+    except AttributeError:
+        pass
+    else:
+        object.__setattr__(twin, CACHE, None)      # a hash-caching class: the twin starts with an empty cache
+    return twin
+
+
 def _result(res, inst, names, hashed=False):
     ib.SELF[0] = res
     vals = ib.read_values(res, names)
     flags = []
     if hashed:
-        # the copy must hash through the generated __hash__ (its cache carried over or re-created)
+        # the returned object must hash through the generated __hash__ (cache carried over or re-created) ...
         try:
-            if hash(res) == hash(res):
+            hr = hash(res)
+            if hr == hash(res):
                 flags.append("reshash")
+            # ... like a freshly built twin with the same field values (a stale hash code of the original
+            # must not travel along), and must be found in a dict keyed by that twin
+            twin = _twin(res, names)
+            if hash(twin) == hr and {twin: 1}.get(res) == 1:
+                flags.append("twin")
         except Exception:  # noqa: BLE001
             pass
     if res is not inst and type(res) is type(inst):
@@ -509,7 +591,7 @@ def apply_op(inst, op, case, toks, names):
                         res = attr.evolve(inst, **dict(a["changes"]))
                 finally:
                     ib.SELF_CLASS[0] = None
-                values, flags = _result(res, inst, names)
+                values, flags = _result(res, inst, names, case.get("hashNames") is not None)
             elif k == "withTb":
                 r = inst.with_traceback(toks["tb"] if a["present"] else None)
                 flags = ["self"] if r is inst else []
